@@ -84,7 +84,7 @@ def shrink_script(script, fails, config='default'):
     return ['SETUP'] + small
 
 
-def run_profile(ctx, gen, n, config='default', claims=None, extra_oracle=None, trigger=None, label='', model_check=True):
+def run_profile(ctx, gen, n, config='default', claims=None, extra_oracle=None, trigger=None, label='', model_check=True, histories=None):
     """gen(rng) -> script.  claims(op, predicted, got) -> bool : whether a spec deviation belongs to this property.
     extra_oracle(script, impl_out) -> list of (line, what).  trigger(script) -> bool : non-trivial for this property."""
     corpus = []
@@ -92,7 +92,7 @@ def run_profile(ctx, gen, n, config='default', claims=None, extra_oracle=None, t
     if os.path.isdir(cdir):
         for fn in sorted(os.listdir(cdir)):
             if fn.endswith('.script'): corpus.append([l for l in open(f'{cdir}/{fn}').read().split('\n') if l])
-    H = corpus + [gen(ctx.rng) for _ in range(n)]
+    H = corpus + (histories if histories is not None else [gen(ctx.rng) for _ in range(n)])
     impl, model = hist.run_both(H, config)
     ctx.evaluations += sum(len(h) for h in H); ctx.traces += len(H)
     for scr, out in zip(H, impl):
@@ -145,6 +145,21 @@ def run_profile(ctx, gen, n, config='default', claims=None, extra_oracle=None, t
                                  'expected_by_spec': spec.predict(small), 'impl': [o.split('|')[0] for o in out], 'model': [o.split('|')[0] for o in mo],
                                  'violations_total': len(hits)})
     return H, impl, model, dis, hits
+
+
+def enumerate_histories(prefix, alphabet, maxlen, suffix):
+    """all operation sequences of length <= maxlen over the alphabet, between a fixed prefix and suffix (thorough tier)"""
+    import itertools
+    out = []
+    for n in range(0, maxlen + 1):
+        for seq in itertools.product(alphabet, repeat=n): out.append(prefix + list(seq) + suffix)
+    return out
+
+
+def exhaustive(ctx, name, prefix, alphabet, maxlen, suffix, **kw):
+    H = enumerate_histories(prefix, alphabet, maxlen, suffix)
+    ctx.cov.setdefault('exhaustive_enumerations', []).append({'name': name, 'alphabet': hist.pretty(alphabet), 'max_length': maxlen, 'histories': len(H)})
+    return run_profile(ctx, None, 0, histories=H, label=f'exhaustive {name} (all sequences of length <= {maxlen} over {len(alphabet)} operations)', **kw)
 
 
 def finish(ctx, rule):
